@@ -1,5 +1,7 @@
 import RedisVerif.Driver.C08
+import RedisVerif.Driver.C01
 import RedisVerif.Props.C06
+import RedisVerif.Model.Glue
 
 /-
   C06 sub-driver (stateful): a cluster of shard replication states.
@@ -9,6 +11,19 @@ import RedisVerif.Props.C06
     V <j> <idx>                              → ok        (deliver message idx of the history to node j)
     STATE <i>                                → <n> (<key> <rv> ;)*
     CHECK <key>                              → delivered=<b> compat=<K|-> agree=<b> agreefull=<b>
+
+  Layer 2 (glue model `Model/Glue.lean`; a separate cluster of `Glue.Node`s):
+    GN <n> <causal01>                        → ok
+    GC <i> <command, C01 syntax> ;; <dump>   → <reply> | <served keyspace of node i> | sup=<ok|reason> delta=<key rv|none>
+    GV <j> <idx> ;; <dump>                   → <merged rv|none> | <served keyspace of node j> | sup=<ok|reason>
+    GX <j> <key> <rv> ;; <dump>              → same, for a crafted delta that is not in the history
+    GR <i> <key> <rv> ;; <dump>              → fresh=<b> | <served keyspace of node i> | -      (ApplyRecoveredState)
+    GS <i>                                   → <n> (<key> <rv> ;)* | <served keyspace> | served=<b>
+    GK <key>                                 → delivered=<b> kind=<K|-> agree=<b> reads=<b>
+  `<dump>` after `;;` is the IMPLEMENTATION's served keyspace after the step (C01 dump syntax,
+  instant 0).  As in the C01 driver the model answers from its own state and then adopts the
+  implementation's executor keyspace, so that a known conformance defect of the executor (C01
+  findings) is reported once, at the op where it happens.
 -/
 namespace RedisVerif.Driver.C06
 open RedisVerif RedisVerif.Driver RedisVerif.Cluster
@@ -83,5 +98,131 @@ def step (c : Cluster) (line : String) : Cluster × String :=
       | none => (c, "bad-op")
     | none => (c, "bad-op")
   | _ => (c, "bad-op")
+
+/-! ## layer 2 -/
+
+open RedisVerif.Glue
+
+structure DState where
+  c : Cluster
+  g : GCluster
+
+def DState.init : DState := { c := Cluster.init 0 false, g := GCluster.init 0 false }
+
+def showReason : Option Reason → String
+  | none => "ok"
+  | some .nonReplicatedWriter => "non-replicated-writer"
+  | some .setExpiryNotRecorded => "set-expiry-not-recorded"
+  | some .modifyKeepsTtl => "modify-keeps-ttl"
+  | some .hashOverNonHash => "hash-over-non-hash"
+  | some .badDelta => "bad-delta"
+  | some .expiryRange => "expiry-range"
+  | some .multiKeyDel => "multi-key-del"
+
+def showDelta : Option Delta → String
+  | none => "none"
+  | some d => s!"{showKey d.1} {showRV d.2}"
+
+def showSnap (s : Shard) : String :=
+  " ".intercalate (toString s.keys.length :: s.keys.map (fun p => s!"{showKey p.1} {showRV p.2} ;"))
+
+/-- `served = materialise ∘ rs` on every key either side knows -/
+def servedOk (n : Node) : Bool :=
+  ((Redis.view n.exec 0).map (·.1) ++ n.rs.keys.map (·.1)).all
+    (fun k => served n k == materialise (NMap.get n.rs.keys k))
+
+/-- value part of what a node serves for a key (what GET / HGETALL / EXISTS depend on) -/
+def servedVal (n : Node) (k : Nat) : Option Redis.Value := (served n k).map (·.val)
+
+def kindK (c : Cluster) (k : Nat) : Option Nat :=
+  (List.range 6).find? (fun K => decide (C06.KindStable c k K))
+
+def adopt (g : GCluster) (i : Nat) (exec : Redis.State) : GCluster :=
+  match g.nodes[i]? with
+  | some nd => { g with nodes := g.nodes.set i { nd with exec := exec } }
+  | none => g
+
+def gstep (g : GCluster) (line : String) : GCluster × String :=
+  match tokens line with
+  | ["GN", n, cz] =>
+    match n.toNat?, cz.toNat? with
+    | some n, some z => (GCluster.init n (z != 0), "ok")
+    | _, _ => (g, "bad-op")
+  | ["GS", i] =>
+    match i.toNat? with
+    | some i =>
+      match g.nodes[i]? with
+      | some nd => (g, s!"{showSnap nd.rs} | {C01.showDump nd.exec 0} | served={b01 (servedOk nd)}")
+      | none => (g, "bad-op")
+    | none => (g, "bad-op")
+  | ["GK", _] =>
+    match runP (do expect "GK"; strKey) line with
+    | some k =>
+      let c := g.proj
+      let kd := match kindK c k with | some K => toString K | none => "-"
+      let reads := g.nodes.all fun a => g.nodes.all fun b => servedVal a k == servedVal b k
+      (g, s!"delivered={b01 (decide (C06.Delivered c k))} kind={kd} agree={b01 (agreeB c k)} reads={b01 reads}")
+    | none => (g, "bad-op")
+  | "GC" :: _ =>
+    match runP (do expect "GC"; let i ← nat; let c ← C01.cmd; expect ";;"; let s ← C01.dump 0; pure (i, c, s)) line with
+    | some (i, c, impl) =>
+      match g.nodes[i]? with
+      | some nd =>
+        let sup := gunsupported g (.client i c)
+        let r := nd.client c
+        let g' := g.step (.client i c)
+        (adopt g' i impl,
+          s!"{C01.showReply (C01.canonReply c r.2.1)} | {C01.showDump r.1.exec 0} | sup={showReason sup} delta={showDelta r.2.2}")
+      | none => (g, "bad-op")
+    | none => (g, "bad-op")
+  | "GV" :: _ =>
+    match runP (do expect "GV"; let j ← nat; let idx ← nat; expect ";;"; let s ← C01.dump 0; pure (j, idx, s)) line with
+    | some (j, idx, impl) =>
+      match g.nodes[j]?, g.sent[idx]? with
+      | some _, some m =>
+        let sup := gunsupported g (.deliver j idx)
+        let g' := g.step (.deliver j idx)
+        match g'.nodes[j]? with
+        | some nd' =>
+          let mv := match NMap.get nd'.rs.keys m.key with | some v => showRV v | none => "none"
+          (adopt g' j impl, s!"{mv} | {C01.showDump nd'.exec 0} | sup={showReason sup}")
+        | none => (g, "bad-op")
+      | _, _ => (g, "bad-op")
+    | none => (g, "bad-op")
+  | "GX" :: _ =>
+    match runP (do expect "GX"; let j ← nat; let k ← strKey; let v ← rv; expect ";;"; let s ← C01.dump 0; pure (j, k, v, s)) line with
+    | some (j, k, v, impl) =>
+      match g.nodes[j]? with
+      | some nd =>
+        let sup := unsupported nd (.deliver k v)
+        let nd' := nd.deliver k v
+        let mv := match NMap.get nd'.rs.keys k with | some v => showRV v | none => "none"
+        ({ g with nodes := g.nodes.set j { nd' with exec := impl } },
+          s!"{mv} | {C01.showDump nd'.exec 0} | sup={showReason sup}")
+      | none => (g, "bad-op")
+    | none => (g, "bad-op")
+  | "GR" :: _ =>
+    match runP (do expect "GR"; let j ← nat; let k ← strKey; let v ← rv; expect ";;"; let s ← C01.dump 0; pure (j, k, v, s)) line with
+    | some (j, k, v, impl) =>
+      match g.nodes[j]? with
+      | some nd =>
+        let fresh := (NMap.get nd.rs.keys k).isNone
+        let nd' := nd.recovered k v
+        ({ g with nodes := g.nodes.set j { nd' with exec := impl } },
+          s!"fresh={b01 fresh} | {C01.showDump nd'.exec 0} | -")
+      | none => (g, "bad-op")
+    | none => (g, "bad-op")
+  | _ => (g, "bad-op")
+
+def stepAll (d : DState) (line : String) : DState × String :=
+  match tokens line with
+  | t :: _ =>
+    if t == "GN" || t == "GC" || t == "GV" || t == "GX" || t == "GR" || t == "GS" || t == "GK" then
+      let r := gstep d.g line
+      ({ d with g := r.1 }, r.2)
+    else
+      let r := step d.c line
+      ({ d with c := r.1 }, r.2)
+  | [] => (d, "bad-op")
 
 end RedisVerif.Driver.C06
